@@ -26,7 +26,7 @@ From Coq Require Import Ascii String List ZArith Bool Arith.
 Import ListNotations.
 Open Scope Z_scope.
 
-Definition byte := Z.
+Notation byte := Z (only parsing).
 
 Definition bs (s : string) : list byte :=
   map (fun a => Z.of_N (N_of_ascii a)) (list_ascii_of_string s).
@@ -116,8 +116,8 @@ Definition dec_int (ds : list byte) : Z := fold_left (fun acc d => acc * 10 + (d
 
 (** ** reading: utils.py:686-717 *)
 
-Definition arrival := (Z * byte)%type.         (* absolute arrival time, byte *)
-Definition schedule := list (Z * list byte).   (* write bursts of the terminal *)
+Notation arrival := (Z * Z)%type (only parsing).         (* absolute arrival time, byte *)
+Notation schedule := (list (Z * list Z)) (only parsing).   (* write bursts of the terminal *)
 
 Definition flatten (s : schedule) : list arrival :=
   flat_map (fun u => map (pair (fst u)) (snd u)) s.
